@@ -13,6 +13,24 @@ fn nt_c01(_p: &Plan, o: &RunOut) -> bool {
     o.probes.rollbacks >= 1 && faults_fired(o) >= 1 && o.probes.sealed_frames >= 50
 }
 
+fn nt_c02(_p: &Plan, o: &RunOut) -> bool {
+    o.probes.frames_first >= 30 && (o.probes.rollbacks >= 1 || o.probes.stalls_lockstep >= 1 || o.probes.spectator_frames >= 1)
+}
+fn nt_c03(_p: &Plan, o: &RunOut) -> bool {
+    o.probes.predicted_inputs >= 10 && o.probes.rollbacks >= 1 && o.probes.sealed_frames >= 50
+}
+fn nt_c04(_p: &Plan, o: &RunOut) -> bool {
+    o.probes.stalls_prediction_limit + o.probes.stalls_lockstep >= 10 && o.probes.frames_first >= 30
+}
+fn nt_c05(_p: &Plan, o: &RunOut) -> bool {
+    faults_fired(o) >= 1
+}
+fn nt_c13(p: &Plan, o: &RunOut) -> bool {
+    matches!(p.mode, crate::plan::Mode::SyncTest { expect_reject: false, .. }) && o.probes.frames_first >= 20
+}
+
+const BASE_ASSUME: &[&str] = &["the harness game is the only game: deterministic hash chain over (value, disconnected flag)", "virtual clock: all reads within one API call return the same instant", "udp_socket.rs is outside the simulator"];
+
 pub const SPECS: &[PropSpec] = &[PropSpec {
     id: "C01",
     level: "exploration",
@@ -22,8 +40,77 @@ pub const SPECS: &[PropSpec] = &[PropSpec {
     rule: "runs are generated from C01's space (2-4 peers, 1-2 local players each, delays 0-6, windows 1-12, sparse on/off, both predictors, five input modes, tick jitter/pauses/rate ratios, per-packet loss <= 25 %, duplication <= 10 %, latency 0-150 ms with jitter, burst outages short of the timeout, 50-5000 frames, 0-2 spectators); a run is non-trivial if it had >= 1 rollback, >= 1 network fault that actually fired and >= 50 frames sealed against the serial replay; distinct = distinct 64-bit hash of the executed schedule",
     nontrivial: nt_c01,
     required_probes: &["rollbacks", "rollbacks_at_full_window", "stalls_at_prediction_limit", "lists_with_two_loads", "drop_random", "duplicate_random", "reordered_deliveries", "drop_window", "sealed_frames", "input_ring_wraps"],
-    assumptions: &["the harness game is the only game: deterministic hash chain over (value, disconnected flag)", "virtual clock: all reads within one API call return the same instant", "udp_socket.rs is outside the simulator"],
+    assumptions: BASE_ASSUME,
+},
+PropSpec {
+    id: "C02",
+    level: "exploration",
+    quick_runs: 6000,
+    thorough_runs: 150_000,
+    default_seed: 202,
+    rule: "mix of C01's space (with lockstep allowed), starvation schedules (a peer paused or cut off for 1-50 s with raised timeouts, all windows 0..=12), pure lockstep runs, SyncTest sessions and runs with spectators; every request list of every call goes through the request-list automaton; non-trivial = >= 30 frames simulated and at least one rollback, lockstep stall or spectator frame; distinct = distinct executed-schedule hash",
+    nontrivial: nt_c02,
+    required_probes: &["rollbacks", "rollbacks_at_full_window", "stalls_at_prediction_limit", "stalls_lockstep", "lists_with_two_loads", "spectator_frames", "saves"],
+    assumptions: BASE_ASSUME,
+},
+PropSpec {
+    id: "C03",
+    level: "exploration",
+    quick_runs: 6000,
+    thorough_runs: 150_000,
+    default_seed: 303,
+    rule: "C01's space without disconnects, a quarter of the runs biased to held inputs (long prediction streaks); every (value, status) of every AdvanceFrame is checked against the input-delay model and the connection status read through the accessor; non-trivial = >= 10 predicted inputs, >= 1 rollback, >= 50 sealed frames; distinct = distinct executed-schedule hash",
+    nontrivial: nt_c03,
+    required_probes: &["predicted_inputs", "rollbacks", "sealed_frames", "frames_resimulated"],
+    assumptions: BASE_ASSUME,
+},
+PropSpec {
+    id: "C04",
+    level: "exploration",
+    quick_runs: 5000,
+    thorough_runs: 120_000,
+    default_seed: 404,
+    rule: "windows 0..=12 x delays x sparse x starvation (one peer paused or black-holed one/both ways for 1-50 s, timeouts raised to 120 s); non-trivial = >= 10 stalled calls (prediction limit or lockstep) and >= 30 frames simulated; distinct = distinct executed-schedule hash",
+    nontrivial: nt_c04,
+    required_probes: &["stalls_at_prediction_limit", "stalls_lockstep", "rollbacks_at_full_window", "drop_window"],
+    assumptions: BASE_ASSUME,
+},
+PropSpec {
+    id: "C05",
+    level: "fault_enumeration",
+    quick_runs: 0,
+    thorough_runs: 0,
+    default_seed: 505,
+    rule: "part (a), enumerated: 48 base configurations (2 peers / 2 peers + spectator / 3 peers; window 0,1,2,8; delay 0,2; sparse on/off), every single fault (drop / duplicate / delay by 250 ms) on each of the first 60 packets of every directed link (handshake included); thorough additionally every PAIR of such faults for the two-peer bases and for the host<->spectator links; part (b), seeded: sampled pairs/triples and random one-way/two-way burst outages and kind-targeted loss (acks, inputs, handshake packets) shorter than timeout - 600 ms - 2 x latency and than 100 frame-times. Oracle (only after the last fault): every session Running and still advancing (>= 5 frames in the second half of the 3 s after the last fault; a wedge advances none), spectators caught up, no Disconnected event, C01's timeline check on. Non-trivial = at least one injected fault fired; distinct = distinct executed-schedule hash",
+    nontrivial: nt_c05,
+    required_probes: &["drop_explicit", "duplicate_explicit", "delay_explicit", "drop_window", "spectator_frames", "stalls_lockstep", "sealed_frames"],
+    assumptions: &["liveness is demanded only after the last injected fault, of sessions that are ticked regularly", "3 s = 15 retry periods of 200 ms", "fault windows stay below the disconnect timeout and below the 128-input cap towards spectators: beyond that a disconnect is the specified outcome"],
+},
+PropSpec {
+    id: "C13",
+    level: "exploration",
+    quick_runs: 40_000,
+    thorough_runs: 1_000_000,
+    default_seed: 1313,
+    rule: "degenerate simulation (one SyncTestSession, no network/clock): players 1-4, window 1-12, check distance 0..window-1 (valid) or >= window / sparse (must be rejected), delay 0-6, 30-400 frames; half of the valid runs inject a nondeterministic game step at a seeded frame (check distance >= 2) and must be reported within check_distance+2 frames naming the first affected frame; the others must never report; non-trivial = valid configuration that simulated >= 20 frames; distinct = distinct (request trace, seed) hash",
+    nontrivial: nt_c13,
+    required_probes: &["synctest_runs_with_detection", "synctest_invalid_configs_tried", "rollbacks"],
+    assumptions: &["the injected fault is a game step whose result differs between simulations of the same frame (fresh counter mixed into the state)", "no network, no clock: the technique degenerates to seeded workload + fault + oracle + replay"],
 }];
+
+/// Number of runs of a tier (the bounded-exhaustive parts fix their own counts).
+pub fn runs(spec: &PropSpec, tier: &str) -> u64 {
+    match spec.id {
+        "C05" => crate::scenarios::c05_runs(tier),
+        _ => {
+            if tier == "thorough" {
+                spec.thorough_runs
+            } else {
+                spec.quick_runs
+            }
+        }
+    }
+}
 
 pub fn spec(id: &str) -> Option<&'static PropSpec> {
     SPECS.iter().find(|s| s.id == id)
